@@ -58,6 +58,9 @@ func badHarness(skeleton string, nMethods int) (rejected bool) {
 	}
 	v := vrt.TypeCheckFuncs(skeleton, all)
 	vrt.AssertMsg("emitted-functions-type-check", v == "", v)
+	// an error-returning getter is never handed to a function as its argument list: f(g()) passes
+	// g's error on as an ordinary argument (a variadic f accepts it), where nobody checks it
+	vrt.AssertMsg("error-of-a-getter-is-never-passed-on-as-an-argument", !strings.Contains(all, "(src.NameErr())"), all)
 	vrt.Reach("accepted")
 	return false
 }
